@@ -186,7 +186,7 @@ func specs() []*spec {
 			Batch: 1, QuickSecs: 60, ThoroughSecs: 900, PlanTimeoutS: 120,
 			DetSamples: 8, DetThreshold: 0.9,
 			RequiredProbes: []string{"all_callers_returned", "shutdown_while_in_use", "status_lists_checked", "metric_lists_checked", "alerts_read", "alert_lists_checked", "alerts_injected", "pinsets_checked"},
-			Rule:           "plan = one of five worlds (pin tracker + operation table over a model daemon; metrics store + checker + pubsub monitor; a whole Cluster with model consensus/monitor/tracker and the real disk and numpin informers; the two informers alone; the CRDT consensus component with batching) + 2-5 caller goroutines each running a plan-given sequence of 8-70 public calls (track/untrack/status/statusall/recover/recoverall; log/publish/latest/all/check/alerts/remove; inject alerts (bursts above the 1000-entry reset)/Alerts()/pin/unpin/status/peers/id/sync; GetMetric; LogPin/LogUnpin/list/trust/distrust) with pauses of 0-400 ms so that most calls land in the same instants, and in 60% of the plans a Shutdown issued by one caller while the others go on. Built with the race detector (checkptr off). Violation = race report, panic on a goroutine of the code under test, Shutdown or callers stuck for minutes of simulated time, or a structurally torn result (empty or duplicated entries in status, metric, alert or pinset lists). Non-trivial = >=1 call; distinct = distinct canonical trace digest.",
+			Rule:           "plan = one of five worlds (pin tracker + operation table over a model daemon; metrics store + checker + pubsub monitor; a whole Cluster with model consensus/monitor/tracker and the real disk and numpin informers; the two informers alone; the CRDT consensus component with batching) + 2-5 caller goroutines each running a plan-given sequence of 8-70 public calls (track/untrack/status/statusall/recover/recoverall; log/publish/latest/all/check/alerts/remove; inject alerts (bursts above the 1000-entry reset)/Alerts()/pin/unpin/status/peers/id/sync; GetMetric; LogPin/LogUnpin/list/trust/distrust) with pauses of 0-400 ms so that most calls land in the same instants, and in 60% of the plans a Shutdown issued by one caller while the others go on. Lock acquisitions are seeded scheduling points with a per-plan probability of 0-60 % (runtime overlay, knob lock_yield). Built with the race detector (checkptr off). Violation = race report, panic on a goroutine of the code under test, Shutdown or callers stuck for minutes of simulated time, or a structurally torn result (empty or duplicated entries in status, metric, alert or pinset lists). Non-trivial = >=1 call; distinct = distinct canonical trace digest.",
 			Real:           []string{"pintracker/stateless + optracker", "monitor/metrics Store, Window, Checker; monitor/pubsubmon over gossipsub", "ipfscluster.Cluster facade (Alerts, alertsHandler, Pin/Unpin, Status*, Peers, ID, StateSync, RecoverAllLocal, Shutdown, publish loops)", "informer/disk, informer/numpin", "consensus/crdt (batching queue, Trust/Distrust, Shutdown), go-ds-crdt", "Go race detector (happens-before, independent of the interleaving that ran)"},
 			Model:          []string{"IPFS daemon and connector, consensus/monitor/tracker behind the Cluster facade (models, internally locked)"},
 			Assumptions:    []string{"the race detector reports accesses unordered by happens-before among those executed; which accesses execute is decided by the plan", "reports inside third-party dependencies are matched against the known-findings file like any other"},
